@@ -138,15 +138,63 @@ KANI_PATCHES = [
             {"""),
 ]
 
-# harness file (under /verif/harness/kani) -> module file of the scratch tree it becomes a child of
-KANI_INJECT = {
-    "operators.rs": "src/engine/operators/mod.rs",
-}
+# Injected modules.  Every entry appends `#[cfg(..)] #[path = ".."] pub(crate) mod <name>;` to `target` (making the
+# harness a *child* of the module that owns the private items it exercises) and a `pub(crate) use` re-export to every
+# ancestor module file so that generated root-level tests can name it.  Nothing in an existing line is rewritten.
+INJECT = [
+    # (source under /verif/harness, target module file, module name, kinds)
+    ("kani/operators.rs", "src/engine/operators/mod.rs", "verif_kani_operators", ("kani",)),
+    ("native/merge.rs", "src/engine/operators/merge.rs", "verif_nat_merge", ("native",)),
+    ("native/merge_keep.rs", "src/engine/operators/merge_keep.rs", "verif_nat_merge_keep", ("native",)),
+]
+
+
+def inject_list(kind):
+    out = []
+    for src, target, name, kinds in INJECT:
+        if kind in kinds and os.path.exists(os.path.join(VERIF, "harness", src)):
+            out.append((src, target, name))
+    return out
 
 
 def kani_inject_map():
-    m = dict(KANI_INJECT)
-    return {k: v for k, v in m.items() if os.path.exists(os.path.join(VERIF, "harness", "kani", k))}
+    return {src.split("/", 1)[1]: target for src, target, name in inject_list("kani")}
+
+
+def module_chain(target_rel):
+    """src/a/b/c.rs -> (["a","b","c"], [module file of a::b, module file of a, src/lib.rs]) ancestors nearest first"""
+    p = target_rel[4:-3]
+    parts = p.split("/")
+    if parts[-1] in ("mod", "lib"):
+        parts = parts[:-1]
+    return parts
+
+
+def module_file(tree, parts):
+    """module file (relative) for module path parts under src/"""
+    if not parts:
+        return "src/lib.rs"
+    a = "src/" + "/".join(parts) + ".rs"
+    b = "src/" + "/".join(parts) + "/mod.rs"
+    if os.path.exists(os.path.join(tree, a)):
+        return a
+    return b
+
+
+def build_injections(tree, entries, cfg):
+    """entries: [(abs source path, target rel, name)] -> {rel file: text to append}"""
+    add = {}
+    for srcpath, target, name in entries:
+        add.setdefault(target, "")
+        add[target] += f'\n#[cfg({cfg})]\n#[path = "{srcpath}"]\npub(crate) mod {name};\n'
+        parts = module_chain(target)
+        # re-export upwards: parent of parts[k:] ...
+        for k in range(len(parts) - 1, -1, -1):
+            parent_file = module_file(tree, parts[:k])
+            child = parts[k]
+            add.setdefault(parent_file, "")
+            add[parent_file] += f'\n#[cfg({cfg})]\n#[allow(unused_imports)]\npub(crate) use self::{child}::{name};\n'
+    return add
 
 
 def _sync_transformed(src, dst, transform):
@@ -186,9 +234,11 @@ def stage_kani():
     with Lock("stage-kani"):
         dst = os.path.join(SCRATCH, "tree-kani")
         notes = []
-        inj = {}
-        for h, target in sorted(kani_inject_map().items()):
-            inj.setdefault(target, []).append(h)
+        entries = [(os.path.join(VERIF, "harness", src), target, name) for src, target, name in inject_list("kani")]
+        add = {}
+        for srcpath, target, name in entries:
+            add.setdefault(target, "")
+            add[target] += f'\n#[cfg(kani)]\n#[path = "{srcpath}"]\nmod {name};\n'
         patched = set()
 
         def transform(rel, data):
@@ -198,12 +248,8 @@ def stage_kani():
                     if old in s:
                         data = s.replace(old, new, 1).encode()
                         patched.add(prel)
-            if rel in inj:
-                s = data.decode()
-                for h in inj[rel]:
-                    src = os.path.join(VERIF, "harness", "kani", h)
-                    s += f'\n#[cfg(kani)]\n#[path = "{src}"]\nmod verif_kani_{h[:-3]};\n'
-                data = s.encode()
+            if rel in add:
+                data = (data.decode() + add[rel]).encode()
                 patched.add("inj:" + rel)
             return data
 
@@ -211,7 +257,7 @@ def stage_kani():
         for prel, _, _ in KANI_PATCHES:
             if prel not in patched:
                 notes.append(f"toolchain patch text not found in {prel} (build is attempted anyway)")
-        for rel in inj:
+        for rel in add:
             if "inj:" + rel not in patched:
                 notes.append(f"injection target missing: {rel}")
         th = _hash_dir(dst) + "-" + _hash_dir(os.path.join(VERIF, "harness", "kani"))
